@@ -8,7 +8,7 @@
 From Coq Require Import List NArith ZArith Bool.
 From SqfsV Require Import Base.Bytes Gen.Constants C03.GenC03 C03.Common C03.MetaModel C03.MetaProofs
   C03.MetaRT C03.DirModel C03.DirProofs C03.DirRT C03.DirEnd C03.DirIndex C03.ToyProofs
-  C03.TableModel.
+  C03.TableModel C03.TableProofs C03.NumModel C03.NumProofs.
 Import ListNotations.
 Local Open Scope N_scope.
 
@@ -167,6 +167,77 @@ Proof. exact export_add_spec. Qed.
 Print Assumptions export_table_total.
 
 (* ------------------------------------------------------------------------------------------ *)
+(* lookup tables, super block, padding (write_table.c, super.c, write_super.c, finish.c)        *)
+(* ------------------------------------------------------------------------------------------ *)
+
+(* sqfs_write_table: ceil(size/8192) blocks, each located by its entry of the location list, which
+   follows the last block directly and is where *start points *)
+Theorem table_layout_ok : forall compress uncompress, contract compress uncompress ->
+  forall size0 data bytes start,
+    write_table compress size0 data = Ok (bytes, start) ->
+    exists chunks,
+      concat chunks = data /\
+      Forall (fun ch => 0 < lenN ch /\ lenN ch <= MB) chunks /\
+      Forall (fun ch => lenN ch = MB) (removelast chunks) /\
+      lenN chunks = (lenN data + MB - 1) / MB /\
+      bytes = concat (map (enc compress) chunks) ++ concat (map le64 (table_locs compress size0 chunks)) /\
+      start = size0 + lenN (concat (map (enc compress) chunks)) /\
+      forall k, (k < length chunks)%nat ->
+        read_block uncompress bytes (nth k (table_locs compress size0 chunks) 0 - size0)
+        = Some (nth k chunks [], stored_size compress (nth k chunks []), is_comp compress (nth k chunks [])).
+Proof. exact write_table_ok_l. Qed.
+Print Assumptions table_layout_ok.
+
+(* sqfs_super_init accepts exactly the powers of two in [4096, 1 MiB] and then block_size = 2^block_log *)
+Theorem super_init_ok : forall bs mtime comp s,
+  super_init bs mtime comp = Ok s ->
+  s_block_size s = bs /\ bs = 2 ^ s_block_log s /\ c_SQFS_MIN_BLOCK_SIZE <= bs /\ bs <= c_SQFS_MAX_BLOCK_SIZE /\
+  s_magic s = c_SQFS_MAGIC /\ s_vmaj s = 4 /\ s_vmin s = 0 /\ s_bytes_used s = sizeof_sqfs_super_t.
+Proof. exact super_init_ok_l. Qed.
+Print Assumptions super_init_ok.
+
+(* sqfs_super_write: 96 bytes, every field little endian at its struct offset *)
+Theorem super_write_ok : forall s,
+  super_fields_ok s ->
+  lenN (super_write s) = sizeof_sqfs_super_t /\
+  rd32 (dropN off_sqfs_super_t_magic (super_write s)) = s_magic s /\
+  rd32 (dropN off_sqfs_super_t_inode_count (super_write s)) = s_inode_count s /\
+  rd32 (dropN off_sqfs_super_t_block_size (super_write s)) = s_block_size s /\
+  rd16 (dropN off_sqfs_super_t_block_log (super_write s)) = s_block_log s /\
+  rd16 (dropN off_sqfs_super_t_id_count (super_write s)) = s_id_count s /\
+  rd64 (dropN off_sqfs_super_t_root_inode_ref (super_write s)) = s_root s /\
+  rd64 (dropN off_sqfs_super_t_bytes_used (super_write s)) = s_bytes_used s /\
+  rd64 (dropN off_sqfs_super_t_id_table_start (super_write s)) = s_id_start s /\
+  rd64 (dropN off_sqfs_super_t_xattr_id_table_start (super_write s)) = s_xattr_start s /\
+  rd64 (dropN off_sqfs_super_t_inode_table_start (super_write s)) = s_inode_start s /\
+  rd64 (dropN off_sqfs_super_t_directory_table_start (super_write s)) = s_dir_start s /\
+  rd64 (dropN off_sqfs_super_t_fragment_table_start (super_write s)) = s_frag_start s /\
+  rd64 (dropN off_sqfs_super_t_export_table_start (super_write s)) = s_export_start s.
+Proof. exact super_write_ok_l. Qed.
+Print Assumptions super_write_ok.
+
+(* padd_sqfs: the padded size is the next multiple of the device block size, less than one block added *)
+Theorem padding_ok : forall size blk, 0 < blk ->
+  (size + pad_len size blk) mod blk = 0 /\ pad_len size blk < blk.
+Proof. exact pad_len_ok. Qed.
+Print Assumptions padding_ok.
+
+(* ------------------------------------------------------------------------------------------ *)
+(* inode numbering (lib/fstree/src/post_process.c)                                              *)
+(* ------------------------------------------------------------------------------------------ *)
+
+(* alloc_inode_num_dfs + root: the numbers, in the order they are handed out, are exactly 1, 2, .., N
+   (N = number of nodes that are not hard link entries, root included, root last), and every node gets
+   a number greater than those of all its descendants -- so that writing inodes in number order has the
+   reference of every child at hand when its directory is written *)
+Theorem inode_numbers_dense : forall t,
+  let nums := numbering t in
+  map snd nums = map N.of_nat (seq 1 (count_nodes t)) /\
+  children_before_parents nums.
+Proof. exact numbering_dense_l. Qed.
+Print Assumptions inode_numbers_dense.
+
+(* ------------------------------------------------------------------------------------------ *)
 (* non-vacuity                                                                                  *)
 (* ------------------------------------------------------------------------------------------ *)
 
@@ -243,6 +314,19 @@ Example ex_meta_blocks :
   | _ => False
   end.
 Proof. vm_compute. split; reflexivity. Qed.
+
+(* /: a (dir: x, hard link, y), b (file), c (dir: z) *)
+Example ex_numbering :
+  numbering (TDir [TDir [TLeaf false; TLeaf true; TLeaf false]; TLeaf false; TDir [TLeaf false]])
+  = [([0; 0]%nat, 1); ([0; 2]%nat, 2); ([2; 0]%nat, 3); ([0]%nat, 4); ([1]%nat, 5); ([2]%nat, 6); ([], 7)].
+Proof. vm_compute. reflexivity. Qed.
+
+Example ex_table :
+  match write_table (toy_compress 1) 96 (repeat 3 (N.to_nat 8192) ++ [1; 2; 3]) with
+  | Ok (bytes, start) => start = 96 + 6 + 5 /\ lenN bytes = 6 + 5 + 16 /\ dropN 11 bytes = le64 96 ++ le64 102
+  | _ => False
+  end.
+Proof. vm_compute. repeat split; reflexivity. Qed.
 
 Example ex_super : match super_init 131072 7 4 with
                    | Ok s => s_block_log s = 17 /\ lenN (super_write s) = 96
